@@ -546,8 +546,8 @@ Proof.
 Qed.
 
 (* ---- read-only string operations *)
-Lemma s_compare_ok s a b : str_ok (smem s) a -> str_ok (smem s) b ->
-  okM (s_compare a b) s (fun z s' => z = cmp_ref (txt (smem s) a) (txt (smem s) b) /\
+Lemma s_compare_ok ct s a b : str_ok (smem s) a -> str_ok (smem s) b ->
+  okM (s_compare ct a b) s (fun z s' => z = cmp_ref ct (txt (smem s) a) (txt (smem s) b) /\
      exists rl, Forall (either (str_view a) (str_view b)) rl /\ s' = st_reads s rl).
 Proof.
   intros Ha Hb. unfold s_compare.
@@ -557,18 +557,18 @@ Proof.
   intros z s' (rl & Hz & Hrl & ->). split; [exact Hz|]. exists rl. split; [assumption|reflexivity].
 Qed.
 
-Lemma s_compare_cstr_ok s a b o n : str_ok (smem s) a -> cstr_at (smem s) b o n ->
-  okM (s_compare_cstr a (P b o)) s (fun z s' => z = cmp_ref (txt (smem s) a) (vtext (smem s) (V b o n)) /\
+Lemma s_compare_cstr_ok ct s a b o n : str_ok (smem s) a -> cstr_at (smem s) b o n ->
+  okM (s_compare_cstr ct a (P b o)) s (fun z s' => z = cmp_ref ct (txt (smem s) a) (vtext (smem s) (V b o n)) /\
      exists rl, Forall (either (str_view a) (V b o (n + 1))) rl /\ s' = st_reads s rl).
 Proof.
   intros Ha Hc. unfold s_compare_cstr.
   eapply okM_weaken.
-  { apply okM_liftR with (Q := fun z => z = cmp_ref (txt (smem s) a) (vtext (smem s) (V b o n)))
+  { apply okM_liftR with (Q := fun z => z = cmp_ref ct (txt (smem s) a) (vtext (smem s) (V b o n)))
                          (B := either (str_view a) (V b o (n + 1))).
     eapply okR_bind.
     - eapply okR_weaken; [apply strlen_ok; exact Hc|intros ? E; exact E|intros r H; right; exact H].
     - intros r ->. eapply okR_weaken.
-      + apply (compare_len_ok (smem s) (str_view a) (V b o n)); [apply str_view_valid; assumption|eapply cstr_text_valid; eassumption].
+      + apply (compare_len_ok (smem s) ct (str_view a) (V b o n)); [apply str_view_valid; assumption|eapply cstr_text_valid; eassumption].
       + intros z E. exact E.
       + intros r [H|H]; [left; exact H|right]. eapply within_shorter; [|exact H]. lia. }
   intros z s' (rl & Hz & Hrl & ->). split; [exact Hz|]. exists rl. split; [assumption|reflexivity].
@@ -590,8 +590,8 @@ Proof.
   { apply okM_liftR. apply ends_with_ok; [apply str_view_valid; assumption|assumption]. }
   intros z s' (rl & Hz & Hrl & ->). split; [exact Hz|]. exists rl. split; [assumption|reflexivity].
 Qed.
-Lemma hash_str_ok s a : str_ok (smem s) a ->
-  okM (hash_str a) s (fun h s' => h = hash_ref (txt (smem s) a) 0 /\
+Lemma hash_str_ok ct s a : str_ok (smem s) a ->
+  okM (hash_str ct a) s (fun h s' => h = hash_ref ct (txt (smem s) a) 0 /\
      exists rl, Forall (within (str_view a)) rl /\ s' = st_reads s rl).
 Proof.
   intros Ha. unfold hash_str. eapply okM_weaken.
